@@ -844,6 +844,10 @@ func (e *Evaluator) evalIntegerInfixExp(
 
 		return &object.Int{Value: leftVal / rightVal}
 	case "%":
+		if rightVal == 0 {
+			return e.newError(leftNode, fail.ErrDivisionByZero)
+		}
+
 		return &object.Int{Value: leftVal % rightVal}
 	case "==":
 		return nativeBoolToBooleanObject(leftVal == rightVal)
